@@ -230,6 +230,8 @@ class timemodel(_coreiterative):
             stop=None, flush=None, monitors={}, directives={}):
         """ """
         self.reset(itstart=0) # reset cputime and nit
+        for attr in ('_lastresidual', 'jacobian_use'): # a new integration forgets multistep memory and cached jacobian
+            self.__dict__.pop(attr, None)
         self._remove_monitor_output(monitors)
         return self._solve(f, condition, tsave, stop, flush, monitors, directives)
 
@@ -288,7 +290,12 @@ class timemodel(_coreiterative):
                 while isave < nsave and self.Qn.time+mindtloc >= tsave[isave]: # all save times within this step
                     # compute smaller step with same integrator
                     if tsave[isave] > self.Qn.time: # a save time equal to the current time is the current state
+                        memory = self.__dict__.get('_lastresidual') # multistep memory must not see this side step
                         self.step(Qnn, tsave[isave]-self.Qn.time)
+                        if memory is None:
+                            self.__dict__.pop('_lastresidual', None)
+                        else:
+                            self._lastresidual = memory
                     Qnn.it = self._itstart + self._nit
                     results.append(Qnn)
                     if verbose:
